@@ -14,7 +14,7 @@ RULE = ("random histories (<=14 steps) of push_theme(inherit=T/F), pop_theme (in
         "Non-trivial: >=3 steps with >=1 non-inheriting push or exceptional exit; distinct by history.")
 ASSUMPTIONS = ["rich.default_styles.DEFAULT_STYLES is data (what the default theme defines)",
                "style names are drawn from [A-Za-z0-9_.-]+ (what a config file key can hold)"]
-REQUIRED = ["mon.console_style_by_name", "mon.context_reentered", "mon.lookup", "mon.pop_restores", "mon.base_pop", "mon.config_roundtrip", "mon.exception_exit"]
+REQUIRED = ["mon.console_style_by_name", "mon.context_reentered", "mon.lookup", "mon.pop_restores", "mon.base_pop", "mon.config_roundtrip", "mon.exception_exit", "mon.lookup_with_default", "mon.config_after_edit"]
 MIN_NONTRIVIAL = {"quick": 2000, "thorough": 100000}
 
 NAMES = ["info", "warn", "danger", "repr.number", "rule.line", "bar.complete", "a", "b.c", "red", "bold",
